@@ -74,7 +74,7 @@ _HB_NEEDLES = [
     "writer_proxy.write_message(&reader_guid,self.transport.message_writer.as_ref());",
 ]
 _GAP_NEEDLES = [
-    "forseq_numingap_submessage.gap_start()..gap_submessage.gap_list().base(){writer_proxy.irrelevant_change_set(seq_num)}",
+    "writer_proxy.irrelevant_change_range(gap_submessage.gap_start(),gap_submessage.gap_list().base(),);",
     "forseq_numingap_submessage.gap_list().set(){writer_proxy.irrelevant_change_set(seq_num)}",
 ]
 
